@@ -154,6 +154,10 @@ impl Object for Function {
                         let range = try_opt!(info.range);
                         let encode = info.encode.unwrap_or_else(|| size.iter().flat_map(|&n| [0.0, n.saturating_sub(1) as f32]).collect());
                         let decode = info.decode.unwrap_or_else(|| range.clone());
+                        // inputs are clamped to the domain: a reversed or NaN interval has no such value
+                        if info.domain.chunks_exact(2).any(|c| !(c[0] <= c[1])) {
+                            bail!("invalid /Domain {:?}", info.domain);
+                        }
 
                         Ok(Function::Sampled(SampledFunction {
                             input: izip!(info.domain.chunks_exact(2), encode.chunks_exact(2), size.iter()).map(|(c, e, &s)| {
